@@ -245,8 +245,8 @@ m("m11c", "C11", "sqllineage/core/models.py",
   "        return list(self._parent)\n",
   "parent candidates unsorted")
 m("m11e", "C11", "sqllineage/core/holders.py",
-  "                    for src_wildcard in sorted(\n                        self.get_source_columns(tgt_wildcard), key=lambda c: str(c)\n                    ):\n",
-  "                    for src_wildcard in self.get_source_columns(tgt_wildcard):\n",
+  "                    for src_wildcard in sorted(\n                        self.get_source_columns(tgt_wildcard),\n                        key=lambda c: (\n                            (1, c.parent.query_raw)\n                            if isinstance(c.parent, SubQuery)\n                            and c.parent.alias == f\"subquery_{hash(c.parent)}\"\n                            else (0, str(c))\n                        ),\n                    ):\n",
+  "                    for src_wildcard in list(\n                        self.get_source_columns(tgt_wildcard)\n                    ):\n",
   "wildcard sources visited in set order again (the repaired defect)")
 m("m03j", "C03", "sqllineage/core/holders.py",
   "                    key=lambda x: x[2].get(EdgeTag.INDEX, 0),\n",
